@@ -174,7 +174,30 @@ func (c *verifConn) QueryContext(ctx context.Context, q string, args []driver.Na
 	}
 	r, err := c.inner.QueryContext(ctx, q, args)
 	c.h.point("query", ">")
-	return r, err
+	if err != nil {
+		return nil, err
+	}
+	return &verifRows{inner: r, h: c.h}, nil
+}
+
+// verifRows lets a row FETCH fail (SQLITE_BUSY / SQLITE_IOERR while stepping the statement), which is a different
+// failure from the query itself failing.
+type verifRows struct {
+	inner driver.Rows
+	h     *dbHook
+}
+
+func (r *verifRows) Columns() []string { return r.inner.Columns() }
+func (r *verifRows) Close() error      { return r.inner.Close() }
+func (r *verifRows) Next(dest []driver.Value) error {
+	r.h.point("next", "<")
+	if r.h.shouldFail("next") {
+		r.h.point("next", ">")
+		return errDriverInjected
+	}
+	err := r.inner.Next(dest)
+	r.h.point("next", ">")
+	return err
 }
 
 type verifTx struct {
